@@ -47,7 +47,7 @@ SHAPES = {
     "einsum": [("ij,jk->ik", (2, 3), (3, 4)), ("i,i->", (5,), (5,)), ("ib,ibg->bg", (2, 3), (2, 3, 4)),
                ("b,bg->g", (3,), (3, 5)), ("ijb,ijbg->bg", (2, 2, 3), (2, 2, 3, 4)), ("ab,cd->acbd", (2, 2), (2, 3)),
                ("i,j->ij", (3,), (2,)), ("bij,bjk->bik", (2, 2, 3), (2, 3, 1))],
-    "conjugate": [((),), ((3,),), ((2, 3),), ((1, 4),), ((2, 3, 4),), ((2, 2, 2, 2),)],
+    "conjugate": [((),), ((3,),), ((2, 3),), ((1, 4),), ((2, 3, 4),), ((2, 2, 2, 2),), ((2, 3, 4, 5),), ((3, 3, 3),), ((3, 2, 2, 3),)],
     "conj": [((),), ((3,),), ((2, 3),), ((2, 3, 4),)],
     "elementwise_division": [((), ()), ((3,), (3,)), ((2, 3), (2, 3)), ((2, 1, 3), (2, 1, 3))],
     "absolute_value": [((),), ((3,),), ((2, 3),), ((2, 3, 2),)],
@@ -323,6 +323,11 @@ def run_case(case, ctx):
         ctx.must_raise("inner_prod(vector, scalar)", ValueError, cplx.inner_prod, v, s)
         ctx.must_raise("inner_prod(scalar, vector)", ValueError, cplx.inner_prod, s, v)
         ctx.must_raise("inner_prod(matrix, matrix)", ValueError, cplx.inner_prod, m, m)
+        # vectors of different lengths have no inner product - also when one of them has length 1 (which an elementwise
+        # formulation would silently broadcast)
+        for la, lb in ((3, 1), (1, 3), (3, 4), (2, 5), (1, 2)):
+            ctx.must_raise(f"inner_prod(vector({la}), vector({lb}))", (ValueError, RuntimeError), cplx.inner_prod,
+                           gen.enc(values(rng, (la,), "random")), gen.enc(values(rng, (lb,), "random")))
         ctx.must_raise("outer_prod(matrix, vector)", ValueError, cplx.outer_prod, m, v)
         ctx.must_raise("outer_prod(vector, scalar)", ValueError, cplx.outer_prod, v, s)
         ctx.must_raise("outer_prod(scalar, scalar)", ValueError, cplx.outer_prod, s, s)
